@@ -69,10 +69,13 @@ def main(argv: list[str]) -> int:
     src = Path("/tmp/benign")
     keep = "--keep" in argv
     ids = []
+    offset = 0
     it = iter(argv)
     for a in it:
         if a == "--src":
             src = Path(next(it))
+        elif a == "--offset":
+            offset = int(next(it))
         elif not a.startswith("--"):
             ids.append(a)
     props = sorted(p.stem.upper() for p in (VERIF / "sa" / "props").glob("c[0-9][0-9].py"))
@@ -96,7 +99,7 @@ def main(argv: list[str]) -> int:
                 for l in lines[:3]:
                     print("       ", l)
             if keep and ok:
-                dest = VERIF / "benign" / f"{pid}-{d.name}"
+                dest = VERIF / "benign" / f"{pid}-{int(d.name) + offset if d.name.isdigit() else d.name}"
                 dest.mkdir(parents=True, exist_ok=True)
                 shutil.copy(d / "patch.diff", dest / "patch.diff")
                 meta = json.loads((d / "meta.json").read_text()) if (d / "meta.json").exists() else {}
